@@ -10,14 +10,21 @@ gen:      the table of pairs is spec data (Relations!C10Pairs, dumped by GenC10P
 run:      both members of every pair on the same matrix (real code).
 validate: spec/Trace_Relations.tla judges every record (domain, second input = binarisation,
           Returns, PairAgrees).
+scale:    besides all small inputs, a seeded SCALE-REGIME family (scale_jobs): 100..150-node chains,
+          rings, caterpillars, clique+long path, chains of diamonds (2^k shortest paths), a >127-degree
+          star and dense 17..40-node graphs; as 0/1 matrices (every 0/1 pair) and with weights
+          1e-4..1e-3, 1e3..1e4, 2^1..2^20, 2^-20..2^-8 (symmetric and weight-ignoring pairs).  These
+          records are judged by the same clauses; reals beyond the E-q6 range travel as (hi, lo).
 """
+import ctypes
 import json
 import os
 import random
+import time
 
 import numpy as np
 
-from .. import core, inputs, pool
+from .. import core, encode, inputs, pool
 from . import rel_common as rc
 
 FN = "C10"
@@ -79,11 +86,90 @@ def _thunks(fw, fb, mkA, mkB):
     return (lambda: f1(mkA(fw))), (lambda: f2(mkB(fb)))
 
 
+GIGA = 10 ** 9
+
+
+def enc_scaled(A, scale):
+    """integer matrix A*scale (scale-regime inputs: weights k/scale with scale 1, 2^20 or 10^6);
+    MachineryError unless lossless"""
+    R = np.round(A * float(scale))
+    if not np.all(R / float(scale) == A) or np.any(np.abs(R) >= GIGA):
+        raise core.MachineryError("scale-regime weights are not k/%d" % scale)
+    return encode.mat_int(R)
+
+
+def enc_wide(x, kind):
+    """like rel_common.enc_out, but a real whose round(x*10^6) does not fit below 10^9 is split
+    into (hi, lo), value = hi*10^9 + lo, |lo| < 10^9, lo of the sign of the value
+    (Relations!NearQWide); -> (lo list, hi list, shapes)"""
+    lo, hi, shapes = [], [], []
+    for comp in (list(x) if isinstance(x, tuple) else [x]):
+        a = np.asarray(comp, dtype=float)
+        shapes.append(list(a.shape))
+        for v in a.ravel():
+            v = float(v)
+            if kind == "int" or not np.isfinite(v):
+                lo.append(encode.e_int(v) if kind == "int" else encode.e_q(v))
+                hi.append(0)
+                continue
+            q = int(round(v * encode.Q6))
+            h = abs(q) // GIGA
+            if h >= GIGA:
+                raise ValueError("wide fixed-point overflow: %r" % v)
+            sgn = -1 if q < 0 else 1
+            hi.append(sgn * h)
+            lo.append(sgn * (abs(q) - h * GIGA))
+    return lo, hi, shapes
+
+
+def call2_wide(thunk, kind):
+    """-> (lo, hi, shape, raised)"""
+    try:
+        with np.errstate(all="ignore"):
+            res = thunk()
+    except Exception as e:                      # noqa: BLE001 - the outcome IS the datum
+        return [], [], [], encode.exc_name(e)
+    try:
+        lo, hi, shape = enc_wide(res, kind)
+    except (ValueError, TypeError) as e:
+        return [], [], [], "Unencodable:" + str(e)[:60]
+    return lo, hi, shape, ""
+
+
+_BLAS_DONE = []
+
+
+def blas_single_thread():
+    """performance only: the pool runs 16 worker processes; OpenBLAS would start 16 threads in each
+    of them for every 150x150 product of the matrix-power routines (hundreds of times slower on a
+    busy machine).  No effect on any value."""
+    if _BLAS_DONE:
+        return
+    _BLAS_DONE.append(1)
+    try:
+        with open("/proc/self/maps") as f:
+            libs = sorted({ln.split()[-1] for ln in f if "openblas" in ln and ".so" in ln})
+        for path in libs:
+            lib = ctypes.CDLL(path)
+            for name in ("scipy_openblas_set_num_threads64_", "scipy_openblas_set_num_threads",
+                         "openblas_set_num_threads64_", "openblas_set_num_threads"):
+                if hasattr(lib, name):
+                    getattr(lib, name)(1)
+                    break
+    except Exception:                           # noqa: BLE001
+        pass
+
+
 def exec_job(job):
     A = np.array(job["A"], dtype=float)
     n = len(A)
     dom, kind = job["dom"], job["kind"]
-    scale, Ai = rc.enc_matrix(A)
+    big = bool(job.get("big"))
+    if big:
+        blas_single_thread()
+        scale, Ai = job["wscale"], enc_scaled(A, job["wscale"])
+    else:
+        scale, Ai = rc.enc_matrix(A)
     if dom in ("wund", "wdir"):
         B = (A != 0).astype(float)
         Bi = [[int(v) for v in row] for row in B]
@@ -103,8 +189,14 @@ def exec_job(job):
         return rc.as_variant(B, arg_dtype(name, dt) if (intlike or B is not A) else "float64", lay)
     mkA(job["fw"]), mkB(job["fb"])
     t1, t2 = _thunks(job["fw"], job["fb"], mkA, mkB)
-    rec["out1"], rec["shape1"], rec["raised1"] = rc.call2(t1, kind)
-    rec["out2"], rec["shape2"], rec["raised2"] = rc.call2(t2, kind)
+    if big:
+        rec["out1"], h1, rec["shape1"], rec["raised1"] = call2_wide(t1, kind)
+        rec["out2"], h2, rec["shape2"], rec["raised2"] = call2_wide(t2, kind)
+        if any(h1) or any(h2):                  # no wide value: the plain E-q6 record
+            rec["hi1"], rec["hi2"] = h1, h2
+    else:
+        rec["out1"], rec["shape1"], rec["raised1"] = rc.call2(t1, kind)
+        rec["out2"], rec["shape2"], rec["raised2"] = rc.call2(t2, kind)
     return rec
 
 
@@ -242,6 +334,140 @@ def build_jobs(ctx, pairs):
     return jobs
 
 
+# ------------------------------------------------------- scale-regime family
+# Everything above is "all small inputs".  The slips that small inputs cannot show live in other
+# regimes of SCALE: path lengths / degrees / node counts beyond 127 (int8) ; 2^k equal shortest
+# paths and walk counts beyond 2^31, 2^63, 3.4e38 (int32, int64, float32 counters) ; products of
+# weights along 80..150-hop chains under/overflowing a double (raw weights leaking into a routine
+# that should only see the zero pattern) ; integer weights whose products wrap ; dense graphs beyond
+# n = 10.  A few seeded inputs per regime; every pair of the table whose domain admits the input is run.
+BIG_LIMIT = 240.0           # s per call (a 150-node betweenness_bin takes 1..30 s on a busy machine)
+POW20 = 2 ** 20
+REGIMES = {                 # name -> (scale of the encoding, draw of one weight)
+    "tiny": (10 ** 6, lambda rng: rng.randint(100, 1000) / 1e6),         # 1e-4 .. 1e-3
+    "big": (1, lambda rng: float(rng.randint(1000, 10000))),             # 1e3 .. 1e4
+    "pow2": (1, lambda rng: float(2 ** rng.randint(1, 20))),             # exact, products wrap in intN
+    "npow2": (POW20, lambda rng: 2.0 ** -rng.randint(8, 20)),            # exact, products underflow to 0
+}
+PATH_PAIRS = ("distance_wei", "betweenness_wei", "edge_betweenness_wei", "efficiency_wei", "reachdist")
+
+
+def s_diamonds(k):
+    """chain of k diamonds: 3k+1 nodes, 2^k equal shortest paths between its two ends"""
+    E = []
+    for d in range(k):
+        a = 3 * d
+        E += [(a, a + 1), (a, a + 2), (a + 1, a + 3), (a + 2, a + 3)]
+    return 3 * k + 1, E
+
+
+def s_lollipop(m, n):
+    """clique of m nodes + path up to n nodes: long distances AND walk counts ~ (m-1)^length"""
+    return rc.s_complete(m) + [(i, i + 1) for i in range(m - 1, n - 1)]
+
+
+def scale_supports(ctx, rng):
+    """-> [(name, n, undirected edge list, in the path-count regime?)]"""
+    out = []
+    for _ in range(1 if ctx.quick else 2):
+        n = rng.randint(110, 130) if ctx.quick else rng.randint(110, 150)
+        out.append(("chain", n, rc.s_path(n), False))
+        n = rng.randint(140, 150)                       # spine of 93..100 nodes
+        out.append(("caterpillar", n, rc.s_caterpillar(rng, n), False))
+        m, n = rng.randint(8, 14), rng.randint(100, 115)
+        out.append(("clique+path", n, s_lollipop(m, n), True))     # walk counts beyond 1e38 / 2^63
+        k = rng.randint(33, 36) if ctx.quick else rng.randint(33, 45)
+        out.append(("diamonds", ) + s_diamonds(k) + (True,))       # 2^33.. equal shortest paths
+        n = rng.randint(130, 150)                       # one degree beyond 127
+        out.append(("star", n, rc.s_star(n), False))
+        for _d in range(2):
+            n, p = rng.randint(17, 40), rng.choice([0.3, 0.6, 0.9])
+            U = inputs.rand_graph(rng, n, p, und=True)
+            out.append(("dense", n, [(i, j) for i in range(n) for j in range(i + 1, n) if U[i, j]], False))
+    if not ctx.quick:
+        k = rng.randint(64, 68)                         # beyond 2^63 equal shortest paths
+        out.append(("diamonds", ) + s_diamonds(k) + (True,))
+        n = rng.randint(180, 200)
+        out.append(("chain", n, rc.s_path(n), False))
+        n = rng.randint(230, 260)                       # a ring needs n > 200 for 100+-hop distances
+        out.append(("ring", n, rc.s_cycle(n), False))
+        m, n = rng.randint(20, 30), rng.randint(130, 150)
+        out.append(("clique+path", n, s_lollipop(m, n), True))
+    res = []
+    for name, n, E, pc in out:
+        if rng.random() < 0.5:                          # half of them renumbered at random
+            perm = list(range(n))
+            rng.shuffle(perm)
+            E = sorted(set(tuple(sorted((perm[i], perm[j]))) for i, j in E))
+        res.append((name, n, E, pc))
+    return res
+
+
+def add_big(jobs, pairs, doms, A, src, wscale, variant=rc.PLAIN, only=None, seen=None):
+    intlike = bool(np.all(A == np.round(A)))
+    for p in pairs:
+        if p["dom"] not in doms or len(A) > MAXN.get(p["fw"], 10 ** 6):
+            continue
+        if p["fw"] == "jdegree" and not intlike:        # its runner casts to int: lossless only then
+            continue
+        if only is not None and p["fw"] not in only:
+            continue
+        if seen is not None:        # dtype sweep: skip a draw that hands both members what an earlier one did
+            eff = (p["fw"], p["fb"], arg_dtype(p["fw"], variant[0]), arg_dtype(p["fb"], variant[0]))
+            if eff in seen:
+                continue
+            seen.add(eff)
+        jobs.append(dict(fn="%s~%s@%s" % (p["fw"], p["fb"], p["dom"]), fw=p["fw"], fb=p["fb"],
+                         dom=p["dom"], kind=p["kind"], src=src, A=A.tolist(), big=1, wscale=wscale,
+                         dtype=variant[0], layout=variant[1]))
+
+
+def scale_jobs(ctx, pairs):
+    rng = random.Random(ctx.seed * 7919 + 1010)
+    jobs = []
+    order = []
+    for name, n, E, pathcount in scale_supports(ctx, rng):
+        U = inputs.mat_from_edges(n, E, und=True)
+        D = inputs.mat_from_edges(n, rc.orient(rng, E), und=False)
+        src = "scale-" + name
+        dv = lambda fam: rc.draw_variant(rng, fam, p_plain=0.3)
+        # --- (1) as 0/1 matrices: weighted = binary, directed = undirected
+        add_big(jobs, pairs, ("01", "01und"), U, src + "-und", 1, dv(rc.DT_BIN))
+        if not ctx.quick or rng.random() < 0.5:
+            add_big(jobs, pairs, ("01",), D, src + "-dir", 1, dv(rc.DT_BIN))
+        if pathcount:       # path / walk counters: every admissible argument dtype (a routine counts
+            seen = set()    # paths in the dtype it is handed or in one of its own)
+            for dt in rc.DT_BIN:
+                add_big(jobs, pairs, ("01",), U, src + "-und-dtypes", 1, (dt, rng.choice(rc.LAYOUTS)),
+                        only=PATH_PAIRS, seen=seen)
+        # --- (2) weighted: directed = undirected on symmetric, weights ignored by those that say so
+        regs = []               # one regime per input (thorough: two), cycling through all of them
+        for _ in range(1 if ctx.quick else 2):
+            if not order:
+                order = sorted(REGIMES)
+                rng.shuffle(order)
+            regs.append(order.pop())
+        for rg in regs:
+            wscale, draw = REGIMES[rg]
+            W = np.zeros_like(U)
+            for (i, j) in E:
+                W[i, j] = W[j, i] = draw(rng)
+            Wd = np.where(D != 0, W, 0.0) if rng.random() < 0.5 else D * draw(rng)   # mixed / one value
+            fam = family(W)
+            add_big(jobs, pairs, ("symw", "wund"), W, "%s-%s-und" % (src, rg), wscale, dv(fam))
+            which = rng.choice(("sym", "dir")) if ctx.quick else "both"
+            if which in ("sym", "both") or not Wd.any():
+                add_big(jobs, pairs, ("wdir",), W, "%s-%s-und" % (src, rg), wscale, dv(fam))
+            if which in ("dir", "both") and Wd.any():
+                add_big(jobs, pairs, ("wdir",), Wd, "%s-%s-dir" % (src, rg), wscale, dv(fam))
+            if fam is rc.DT_COUNT and pathcount:    # integer weights: products wrap in intN
+                seen = set()
+                for dt in ("int64", "int32", "float32"):
+                    add_big(jobs, pairs, ("wdir",), W, "%s-%s-und-dtypes" % (src, rg), wscale,
+                            (dt, rng.choice(rc.LAYOUTS)), only=PATH_PAIRS, seen=seen)
+    return jobs
+
+
 BAD_SKIPS = ("skip:unknown_pair", "skip:outside_domain", "skip:second_input_not_binarisation",
              "skip:kind_mismatch", "skip:unknown_property")
 
@@ -257,7 +483,21 @@ def run(ctx):
     bad = [(j["fn"], v[0]) for j, v in zip(jobs, verdicts) if v[0] in BAD_SKIPS]
     if bad:
         raise core.MachineryError("harness produced records outside the spec's table/domains: %s" % bad[:5])
-    ctx.judge(jobs, rc.tag_failures(ctx, jobs, recs, verdicts), verdicts, what=rc.describe)
+    # --- the scale-regime family: run and judged separately (large records, generous time limit)
+    njobs_small, t0 = len(jobs), time.time()
+    bjobs = scale_jobs(ctx, pairs)
+    brecs = pool.run_jobs(__name__, bjobs, limit=BIG_LIMIT)
+    bverdicts = ctx.validate(*rc.TRACE, brecs, tag="c10scale", chunk=120)
+    bad = [(j["fn"], v[0]) for j, v in zip(bjobs, bverdicts) if v[0] in BAD_SKIPS]
+    if bad:
+        raise core.MachineryError("scale family produced records outside the spec's table/domains: %s" % bad[:5])
+    ctx.extra["scale_family"] = dict(
+        records=len(bjobs), timeouts=sum(1 for r in brecs if r.get("timeout")),
+        inputs=sorted({"%s n=%d" % (j["src"], len(j["A"])) for j in bjobs}),
+        wide_values=sum(1 for r in brecs for h in r.get("hi1", []) if h), wall_s=round(time.time() - t0, 1))
+    core.log("  scale family: %d records, %.1fs" % (len(bjobs), time.time() - t0))
+    jobs, recs, verdicts = jobs + bjobs, recs + brecs, verdicts + bverdicts
+    ctx.judge(jobs, rc.tag_failures(ctx, jobs, recs, verdicts), verdicts, what=describe)
     ctx.extra["verdict_counts"] = rc.count_verdicts(recs, verdicts)
     ctx.extra["argument_variants"] = rc.variant_counts(jobs)
     rc.note_never_judged(ctx, recs, verdicts)
@@ -276,21 +516,44 @@ def run(ctx):
                 "its routine's domain allows) and memory layout (Fortran, transposed, window, strided), seeded "
                 "random n in 6..10 (sparse/disconnected/isolated node/dense) and structured families (paths, "
                 "cycles, stars, complete, bipartite, caterpillars, rings of cliques, equal/unequal components; "
-                "also oriented) with weight sets incl. single values, all choices RNG-drawn; non-trivial = distinct (pair, input) "
+                "also oriented) with weight sets incl. single values, all choices RNG-drawn; a seeded scale-regime family "
+                "(%d records: chains/rings/caterpillars/clique+path of 100..150 nodes%s, chains of 33..40%s diamonds, "
+                "a star with a degree > 127, dense graphs n in 17..40; as 0/1 matrices and with weights 1e-4..1e-3, "
+                "1e3..1e4, 2^1..2^20, 2^-20..2^-8; path-count inputs under every argument dtype); "
+                "non-trivial = distinct (pair, input) "
                 "judged (not skipped) whose first output has a nonzero entry"
-                % (len(pairs), "sampled" if ctx.quick else "all"))
+                % (len(pairs), "sampled" if ctx.quick else "all", len(bjobs),
+                   "" if ctx.quick else " (and up to 260)", "" if ctx.quick else " and 64..68"))
     k = next((i for i, j in enumerate(jobs) if j["src"].endswith("-und-weighted") and j["src"][:5] != "model"), 0)
     ctx.add_sample("model-input", dict(job=jobs[40], record=recs[40], verdict=verdicts[40]))
     ctx.add_sample("random-input", dict(job=jobs[k], record=recs[k], verdict=verdicts[k]))
+    kb = next((i for i in range(njobs_small, len(jobs)) if jobs[i]["fw"] == "degrees_dir" and "tiny" in jobs[i]["src"]),
+              njobs_small)
+    ctx.add_sample("scale-input", dict(job={a: b for a, b in jobs[kb].items() if a != "A"}, n=len(jobs[kb]["A"]),
+                                       out1=recs[kb].get("out1", [])[:12], verdict=verdicts[kb]))
     ctx.assumptions += [
         "TLC evaluates the definitions of spec/Relations.tla correctly",
         "outputs are compared after encoding: integers exactly, reals as round(x*10^6) within +-2",
-        "weights are integers 1..3 or k/1000 in (0,1] (lossless encoding of the zero pattern/symmetry)",
+        "weights are integers 1..3 or k/1000 in (0,1] (lossless encoding of the zero pattern/symmetry); in the "
+        "scale-regime family k/10^6, integers up to 2^20 and 2^-8..2^-20, reals beyond 10^3 compared as (hi, lo) "
+        "pairs at the same 10^-6 resolution",
         "a pair whose two members raise the same exception is skipped (nothing is returned to compare); "
         "assortativity is skipped where it is 0/0 (all edge-end degrees equal)",
         "efficiency_wei(local='original') is documented NOT to generalise the binary variant and is not paired",
     ]
     return ctx.finish()
+
+
+def describe(job, rec, clause):
+    if not job.get("big"):
+        return rc.describe(job, rec, clause)
+    A = np.array(job["A"])
+    k = next((i for i, (x, y) in enumerate(zip(rec.get("out1", []), rec.get("out2", []))) if x != y), 0)
+    return ("pair %s / %s on %s: raised=(%r,%r) first differing entry #%d out1=%s out2=%s (of %d) dtype=%s "
+            "layout=%s input=%s n=%d, %d nonzero entries, weights in [%g, %g] (full matrix in the replay file)" % (
+                rec["fw"], rec["fb"], rec["dom"], rec["raised1"], rec["raised2"], k, rec["out1"][k:k + 6],
+                rec["out2"][k:k + 6], len(rec.get("out1", [])), job.get("dtype"), job.get("layout"), job["src"],
+                len(A), int(np.count_nonzero(A)), A[A != 0].min() if A.any() else 0, A.max()))
 
 
 def core_nan():
@@ -300,9 +563,9 @@ def core_nan():
 
 def replay(ctx, rp):
     job = rp["job"]
-    recs = pool.run_jobs(__name__, [job])
+    recs = pool.run_jobs(__name__, [job], limit=BIG_LIMIT if job.get("big") else 20.0)
     verdicts = ctx.validate(*rc.TRACE, recs, tag="c10")
     core.log("replay verdict:", verdicts[0])
-    core.log("  " + rc.describe(job, recs[0], verdicts[0][0]))
-    ctx.judge([job], recs, verdicts, what=rc.describe)
+    core.log("  " + describe(job, recs[0], verdicts[0][0]))
+    ctx.judge([job], recs, verdicts, what=describe)
     return ctx.finish()
